@@ -1,7 +1,7 @@
 package setec
 
 import (
-	"reflect"
+	"encoding"
 	"slices"
 	"strings"
 
@@ -9,14 +9,15 @@ import (
 )
 
 type verifTarget struct {
-	B    []byte
-	S    string
-	H    Secret
+	B    []byte `setec:"b"`
+	S    string `setec:"s"`
+	H    Secret `setec:"h"`
 	Skip int
-	U    []byte // filled by a custom unmarshaler
+	U    verifBin `setec:"u"` // filled by a custom unmarshaler
 }
 
-// C20 (partial): per-type assignment, naming, error isolation, on hand-built field lists.
+// C20 (partial): per-type assignment, naming, error isolation. The field list is built by ParseFields itself
+// (a hand-built []fieldInfo would tie the check to the present layout of an internal struct).
 func verifHarnessC20Apply() {
 	verifEnvReset()
 	client := &verifClient{mayFail: true, honoursCancel: true, preferFailures: true}
@@ -44,13 +45,8 @@ func verifHarnessC20Apply() {
 	vals = snapshot(vals)
 	var t verifTarget
 	t.Skip = 7
-	var gotU []byte
-	f := &Fields{prefix: "pfx", fields: []fieldInfo{
-		{fieldName: "B", secretName: "b", value: reflect.ValueOf(&t.B), vtype: bytesType},
-		{fieldName: "S", secretName: "s", value: reflect.ValueOf(&t.S), vtype: stringType},
-		{fieldName: "H", secretName: "h", value: reflect.ValueOf(&t.H), vtype: secretType},
-		{fieldName: "U", secretName: "u", value: reflect.ValueOf(&t.U), vtype: bytesType, unmarshal: func(bs []byte) error { gotU = append([]byte(nil), bs...); return nil }},
-	}}
+	f, perr := ParseFields(&t, "pfx")
+	assert("supported-shape-accepted", and(perr == nil, f != nil))
 	want := f.Secrets()
 	assert("names-are-prefix-slash-name", and(len(want) == 4, want[0] == "pfx/b", want[1] == "pfx/s", want[2] == "pfx/h", want[3] == "pfx/u"))
 
@@ -72,7 +68,7 @@ func verifHarnessC20Apply() {
 		assert("field-of-a-known-secret-is-filled-whatever-else-fails", t.H != nil)
 	}
 	if knownAtStart["pfx/u"] {
-		assert("field-of-a-known-secret-is-filled-whatever-else-fails", bytesEq(gotU, vals["pfx/u"]))
+		assert("field-of-a-known-secret-is-filled-whatever-else-fails", bytesEq(t.U.got, vals["pfx/u"]))
 	}
 	assert("untagged-field-untouched", t.Skip == 7)
 	okB := mapHas(s.active.m, "pfx/b")
@@ -106,7 +102,7 @@ func verifHarnessC20Apply() {
 		assert("secret-field-is-live-handle", and(t.H != nil, bytesEq(t.H.Get(), vals["pfx/h"])))
 	}
 	if okU {
-		assert("unmarshaler-received-exact-value", bytesEq(gotU, vals["pfx/u"]))
+		assert("unmarshaler-received-exact-value", bytesEq(t.U.got, vals["pfx/u"]))
 	}
 	reach("end")
 }
@@ -172,13 +168,22 @@ type verifShapeShadow struct {
 	verifInnerA
 	X []byte `setec:"outer"`
 }
+
+// a field of an interface type that includes UnmarshalBinary: nothing to unmarshal into while it is nil
+type verifShapeIfaceField struct {
+	I encoding.BinaryUnmarshaler `setec:"i"`
+}
 type verifShapeNoTags struct {
 	A []byte
 }
 
 func verifHarnessC20Parse() {
 	verifEnvReset()
-	switch nondetChoice("shape", 13) {
+	switch nondetChoice("shape", 14) {
+	case 13:
+		var t verifShapeIfaceField
+		_, err := ParseFields(&t, "pfx")
+		assert("nil-interface-field-rejected-up-front", err != nil)
 	case 11:
 		var t verifShapeCollision
 		f, err := ParseFields(&t, "pfx")
@@ -269,6 +274,11 @@ type verifJSONT struct {
 	N int
 }
 
+type verifJSONHolder struct {
+	J    verifJSONT `setec:"j,json"`
+	Skip int
+}
+
 // A json-tagged field holds the decoding of the WHOLE secret: a value that is not exactly one JSON document is an error.
 func verifHarnessC20JSONField() {
 	verifEnvReset()
@@ -279,12 +289,10 @@ func verifHarnessC20JSONField() {
 	s.active.w = map[string][]watcher{}
 	val := nondetSeq("val")
 	s.active.m["pfx/j"] = &cachedSecret{Secret: &api.SecretValue{Value: val, Version: 1}}
-	var t struct {
-		J    verifJSONT
-		Skip int
-	}
+	var t verifJSONHolder
 	t.Skip = 7
-	f := &Fields{prefix: "pfx", fields: []fieldInfo{{fieldName: "J", secretName: "j", value: reflect.ValueOf(&t.J), isJSON: true, vtype: reflect.TypeOf(t.J)}}}
+	f, perr := ParseFields(&t, "pfx")
+	assert("json-shape-accepted", and(perr == nil, f != nil))
 	err := f.Apply(verifBackground(), s)
 	cls := jsonClass(val)
 	if err == nil {
@@ -294,5 +302,66 @@ func verifHarnessC20JSONField() {
 		assert("ill-formed-secret-is-reported", err != nil)
 	}
 	assert("untagged-untouched", t.Skip == 7)
+	reach("end")
+}
+
+// "after construction each field holds that secret's current value": the value is the one the store given to Apply
+// serves at that moment. One parsed field list applied a second time -- to the same store after a newer version
+// was installed, or to a different store -- fills the fields from that store, as it stands then.
+func verifHarnessC20Reapply() {
+	verifEnvReset()
+	names := []string{"b", "s", "h", "u"}
+	mk := func(tag string) (*Store, *verifClient, map[string][]byte) {
+		client := &verifClient{}
+		s := &Store{client: client, logf: verifLogf, timeNow: verifTimeNow, allowLookup: true}
+		s.active.m = map[string]*cachedSecret{}
+		s.active.f = map[string]Secret{}
+		s.active.w = map[string][]watcher{}
+		client.svc = map[string]*api.SecretValue{}
+		vals := map[string][]byte{}
+		for _, n := range names {
+			full := "pfx/" + n
+			vals[full] = nondetSeq("val." + tag + "." + n)
+			sv := &api.SecretValue{Value: vals[full], Version: 1}
+			if nondetBool("known." + tag + "." + n) {
+				s.active.m[full] = &cachedSecret{Secret: sv}
+			} else {
+				client.svc[full] = sv
+			}
+		}
+		return s, client, snapshot(vals)
+	}
+	var t verifTarget
+	f, perr := ParseFields(&t, "pfx")
+	assert("supported-shape-accepted", and(perr == nil, f != nil))
+	s1, _, _ := mk("one")
+	err1 := f.Apply(verifBackground(), s1)
+	assert("first-apply-ok", err1 == nil)
+	var s2 *Store
+	var vals2 map[string][]byte
+	if nondetBool("second.apply.same.store") {
+		// a newer version of every secret is installed in the same store (as a poll would)
+		s2 = s1
+		vals2 = map[string][]byte{}
+		for _, n := range names {
+			full := "pfx/" + n
+			vals2[full] = nondetSeq("val.newer." + n)
+			s1.active.Lock()
+			s1.active.m[full].Secret = &api.SecretValue{Value: vals2[full], Version: 2}
+			s1.active.Unlock()
+		}
+		vals2 = snapshot(vals2)
+	} else {
+		s2, _, vals2 = mk("two")
+	}
+	err2 := f.Apply(verifBackground(), s2)
+	assert("second-apply-ok", err2 == nil)
+	assert("bytes-field-holds-the-current-value-of-the-store-applied", bytesEq(t.B, vals2["pfx/b"]))
+	assert("string-field-holds-the-current-value-of-the-store-applied", t.S == string(vals2["pfx/s"]))
+	assert("handle-field-serves-the-store-applied", and(t.H != nil, bytesEq(t.H.Get(), vals2["pfx/h"])))
+	assert("unmarshaler-received-the-current-value-of-the-store-applied", bytesEq(t.U.got, vals2["pfx/u"]))
+	for _, n := range names {
+		assert("every-name-is-known-to-the-store-applied", mapHas(s2.active.m, "pfx/"+n))
+	}
 	reach("end")
 }
